@@ -88,7 +88,8 @@ Definition sort_state (l : list (str * option str)) : state :=
    3: READ over a database      (entries citations min_crossrefs) -> the citations afterwards, number of reports
    4: SORT                      ((citation (sortkey)?) ...) -> the citations afterwards
    5: do two databases look the same to the interpreter?  (entries1 entries2 citations min_crossrefs)
-   6: posixpath.splitext(p)[0] *)
+   6: posixpath.splitext(p)[0]
+   7: a history of engine calls, each with its own files: the model answers every call on its own ((files call) ...) *)
 Definition dispatch (fn : Z) (a : sexp) : sexp :=
   match fn with
   | 1%Z => e_res e_aux (aux_parse_file aux_depth (d_list d_file (d_nth a 0)) (d_str (d_nth a 1)))
@@ -103,6 +104,7 @@ Definition dispatch (fn : Z) (a : sexp) : sexp :=
            e_bool (sx_eqb (e_read (engine_read (d_list d_bentry (d_nth a 0)) c m))
                           (e_read (engine_read (d_list d_bentry (d_nth a 1)) c m)))
   | 6%Z => e_str (splitext_root (d_str a))
+  | 7%Z => e_list (fun r => e_res e_outcome (do_call (d_list d_file (d_nth r 0)) (d_nth r 1))) (d_items a)
   | _ => L []
   end.
 
